@@ -7,7 +7,7 @@ usage: [SEED_SRC=dir SEED_TAG=r2] verify_seed.py <ID>/<k> [...]
 """
 import json, os, re, shutil, subprocess, sys, tempfile
 
-ENV = dict(os.environ, GOFLAGS="-mod=mod", GOPROXY="off", GOSUMDB="off", GOTOOLCHAIN="local")
+ENV = dict(os.environ, GOFLAGS="-mod=mod", GOPROXY="off", GOSUMDB="off", GOTOOLCHAIN="local")  # go1.26.8 also honours these
 SRC = os.environ.get("SEED_SRC", "/tmp/seeded-out")
 DST = "/verif/seeded"
 TAG = os.environ.get("SEED_TAG", "")  # e.g. "r2" -> /verif/seeded/<ID>-r2-<k>
@@ -47,7 +47,7 @@ def main():
                     raise RuntimeError("cannot parse placement: " + head[:200])
                 where = "" if m.group(1) == "module root" else m.group(1)
                 name = m.group(2).rstrip(";")
-                m2 = re.search(r"run: ((?:[A-Z0-9_]+=\S+ )*go test [^\n(]*)", head)
+                m2 = re.search(r"run: ((?:[A-Z0-9_]+=\S+ )*go[0-9.]* test [^\n(]*)", head)
                 runcmd = m2.group(1).strip()
                 target = os.path.join(wt, where, name)
                 place = os.path.join(where, name)
